@@ -14,7 +14,7 @@ class Engine(DbEngine):
     aspects = {'addrs.find', 'noop-on-failure', 'stats.del', 'addrs.asof', 'store.result', 'ids.del', 'ids.hash', 'ids.has'}
     quick = (200, 30)
     thorough = (5000, 70)
-    rule = "deletion-heavy histories: kind-5 requests with 1-5 tags mixing own / foreign / absent / malformed 'e' targets and own / foreign / malformed 'a' addresses in every position, arriving at any point. oracle: every id's has/deleted/bytes and every address's marker/holder equal the abstract store after every op; a refused request changes nothing. non-trivial = history with >= 2 stores. Plus the arrival order that only exists with two submitters: an event and another author's request naming its id offered by two threads of one Store under the schedule controller; whatever the interleaving, an event whose store succeeded is retrievable and unmarked when both have returned (either the request came first and the store was refused, or the request was refused)"
+    rule = "deletion-heavy histories: kind-5 requests with 1-5 tags mixing own / foreign / absent / malformed 'e' targets and own / foreign / malformed 'a' addresses in every position, arriving at any point. oracle: every id's has/deleted/bytes and every address's marker/holder equal the abstract store after every op; a refused request changes nothing. non-trivial = history with >= 2 stores. Plus the arrival order that only exists with two submitters: an event and another author's request naming its id offered by two threads of one Store under the schedule controller; whatever the interleaving, an event whose store succeeded is retrievable and unmarked when both have returned (either the request came first and the store was refused, or the request was refused). Class crowded-readers: the request arrives while 125 / 126 / as many read transactions as the reader table takes are open (lookups that open their own read transaction fail): implementation-only oracle, the victims stay retrievable and unmarked"
     trusted = DbEngine.db_trusted
     assumptions = ["an 'e' tag naming an id that is not retrievable is marked without an author check (code comment: 'we presume this is valid'); the property speaks of stored events"]
     races = {'quick': 120, 'thorough': 2500}
@@ -49,3 +49,75 @@ class Engine(DbEngine):
                            detail="the event's store succeeded, yet after another author's deletion request naming it the event observes as has/deleted = %s" % flags[0][:2],
                            outcome='removed')
         return Verdict(outcome='race-ok' if stored else 'race-refused', nontrivial=True)
+
+    # ---- the reader table is full (every LMDB reader slot taken by an open read transaction - what a relay serving its
+    # maximum number of concurrent queries looks like): lookups that open their own read transaction fail.  Whatever the
+    # request returns then, another author's events must stay retrievable and unmarked.  Implementation only.
+    def skip_model(self, gcls):
+        return gcls == 'crowded-readers'
+
+    def generate(self, rng, tier):
+        from dbgen import fake_id
+        out = super().generate(rng, tier)
+        for i in range(12 if tier == 'quick' else 300):
+            sub = random.Random(rng.getrandbits(64))
+            g = HistGen(sub, {'new': 3, 'addr': 2}, sub.choice([0, 2, 4])).run()
+            a, b = sub.sample(AUTHORS, 2)
+            victims = []
+            for j in range(sub.choice([1, 2, 3])):
+                kind = sub.choice([1, 1, 7, 30023, 10002, 0])
+                v = g.new_event(kind=kind, pk=a, created=300 + j, tags=[[b'd', b'v%d' % j]] if kind == 30023 else [])
+                v['content'] = b'victim %d' % j
+                v['id'] = fake_id(v)
+                g.op_store(v)
+                g.note_event(v)
+                victims.append(v)
+            ops = [g.render_op(op) for op in g.ops]
+            obs = 'obs %s L0' % C.tl(C.tb(v['id']) for v in victims)
+            ops.append(obs)
+            for j in range(sub.choice([1, 2])):
+                tags = []
+                for v in sub.sample(victims, sub.choice([1, len(victims)])):
+                    tags.append([b'e', v['id'].hex().encode()])
+                    if v['kind'] in (30023, 10002, 0) and sub.random() < 0.5:
+                        d = v['tags'][0][1] if v['tags'] else b''
+                        tags.append([b'a', b'%d:%s:%s' % (v['kind'], v['pk'].hex().encode(), d)])
+                if sub.random() < 0.3:
+                    tags.insert(0, [b'e', b'00' * 32])
+                req = g.new_event(kind=5, pk=b, created=400 + j, tags=tags)
+                ops.append('crowded %s store %s' % (C.tn(sub.choice([0, 0, 0, 125, 126])), C.t_event(req)))
+                ops.append(obs)
+            line = 'dbhist ' + C.tl(C.tb(n_) for n_ in g.names) + ''.join(' ; ' + x for x in ops)
+            out.append(('crowded-readers', line))
+        return out
+
+    def judge(self, gcls, line, model_out, impl_outs):
+        if gcls != 'crowded-readers':
+            return super().judge(gcls, line, model_out, impl_outs)
+        from dbjudge import parse_obs
+        o = impl_outs[self.profiles[0]]
+        if not o.startswith('dbhist '):
+            return Verdict(oracle_ok=False, cls='harness-died', detail=o[:100], outcome='died')
+        segs = o[len('dbhist '):].split(' | ')
+        kinds = [x.split(' ', 1)[0] for x in line.split(' ; ')[1:]]
+        if len(segs) != len(kinds):
+            return Verdict(oracle_ok=False, cls='store-died', detail='history stopped after op %d' % len(segs), outcome='died')
+        full = 0
+        base = None      # the victims as they observe before any request (a later victim may have replaced an earlier one)
+        for n, (k, seg) in enumerate(zip(kinds, segs)):
+            if seg == 'panic' or seg.endswith(' panic'):
+                return Verdict(oracle_ok=False, cls='panic', detail='op %d (%s) panicked' % (n, k), outcome='panic')
+            if k == 'crowded' and ' err' in seg:
+                full += 1
+            if k == 'obs':
+                cur = parse_obs(seg)
+                now = list(zip(cur.get('ids.has', []), cur.get('ids.del', []), cur.get('ids.hash', [])))
+                if base is None:
+                    base = now
+                    continue
+                for (has, dl, _h), was in zip(now, base):
+                    if (has, dl, _h) != was:
+                        return Verdict(oracle_ok=False, cls='foreign-request-removed-a-stored-event',
+                                       detail="op %d: after another author's deletion request arrived while the reader table was crowded, a victim observes as has/deleted = %s%s" % (n, has, dl),
+                                       outcome='removed')
+        return Verdict(outcome='crowded/%s' % ('request-failed' if full else 'request-answered'), nontrivial=True)
